@@ -734,8 +734,23 @@ def check_disco(ctx):
                     sig="disco-box", required="Box(<name>, dom, cod, func): the declared number of inputs first, then of outputs, then the function itself")
 
 
+def check_identity(ctx):
+    """R19.3: Id(n) — which Swap / Copy / Discard are built from and the reference interpreter reads as `no box` — is the diagram on n wires without boxes"""
+    m = ctx.model
+    fn = m.func(CART + ".Id.__init__")
+    ctx.analysed(CART + ".Id.__init__", CART + ".Diagram.id")
+    sup = next((c for c in ast.walk(fn) if isinstance(c, ast.Call) and ast.unparse(c.func) == "super().__init__"), None)
+    shape.match(ctx, "R19.3", CART + ".Id.__init__", sup, ["super().__init__(PRO(dom), PRO(dom), [], [], layers=None)", "super().__init__(PRO(dom), PRO(dom), [], [])", "super().__init__(dom, dom, [], [])",
+                                                           "super().__init__(dom, dom, [], [], layers=None)"], {fn.args.args[1].arg: "dom"}, mod=CART, node=fn, sig="id-init",
+                required="the diagram from dom to dom wires with no boxes")
+    di = m.func(CART + ".Diagram.id")
+    r = next((s.value for s in di.body if isinstance(s, ast.Return)), None)
+    shape.match(ctx, "R19.3", CART + ".Diagram.id", r, "Id(dom)", {di.args.args[0].arg: "dom"}, mod=CART, node=di, sig="diagram-id")
+
+
 def check_structural(ctx):
     m = ctx.model
+    check_identity(ctx)
     consts = m.module_assigns.get(CART, {})
     gens = {}
     for g, want, spec in (("SWAP", (2, 2), lambda x: (x[1], x[0])), ("COPY", (1, 2), lambda x: (x[0], x[0])), ("DISCARD", (1, 0), lambda x: ())):
